@@ -250,7 +250,7 @@ class Parser(object):
         self._parser_check(
             0 <= t[3] <= 0xFFFFFFFF,
             "enumerator value '{}' out of 32-bit unsigned range".format(t[3]),
-            t.lineno(1), t.lexpos(1)
+            t.lineno(3), t.lexpos(3)
         )
         member = model.EnumMember(t[1], str(t[3]))
         self.constdecls[t[1]] = member
